@@ -66,7 +66,8 @@ fn main() {
                 seed,
                 workers,
                 runs: arg(&args, "--runs").and_then(|s| s.parse().ok()),
-                verif_dir: arg(&args, "--verif-dir").unwrap_or("/verif").to_string(),
+                verif_dir: arg(&args, "--verif-dir").map(|s| s.to_string()).unwrap_or_else(core::rt::verif_dir),
+                out_dir: String::new(),
                 emit_fp: false,
             })
             .exit
@@ -80,7 +81,8 @@ fn main() {
                 seed,
                 workers,
                 runs: arg(&args, "--runs").and_then(|s| s.parse().ok()),
-                verif_dir: "/verif".to_string(),
+                verif_dir: core::rt::verif_dir(),
+                out_dir: String::new(),
                 emit_fp: true,
             };
             let total = a.runs.unwrap_or(1000);
@@ -110,7 +112,7 @@ fn main() {
         "native-c07" => {
             #[cfg(feature = "native")]
             {
-                native_c07::run(seed, tier_of(arg(&args, "--tier")), arg(&args, "--verif-dir").unwrap_or("/verif"))
+                native_c07::run(seed, tier_of(arg(&args, "--tier")), &arg(&args, "--verif-dir").map(|s| s.to_string()).unwrap_or_else(core::rt::verif_dir))
             }
             #[cfg(not(feature = "native"))]
             {
